@@ -17,6 +17,7 @@
   subsequently read" (`Resp` carries status and error code only) and "requests that only read" (reads
   are not `Op`s; they do not touch the state by construction).
 -/
+import Placement.Lemmas.GuardTie
 import Placement.Lemmas.GenClear
 
 namespace Placement.Props.C10
